@@ -7,6 +7,7 @@ package server6
 import (
 	"errors"
 	"net"
+	"sync"
 	"time"
 
 	"github.com/insomniacslk/dhcp/dhcpv6"
@@ -44,11 +45,11 @@ func (c *verifConn) ReadFrom(b []byte) (int, net.Addr, error) {
 	return n, r.peer, nil
 }
 func (c *verifConn) WriteTo(b []byte, a net.Addr) (int, error) { return len(b), nil }
-func (c *verifConn) Close() error                             { c.closes++; return nil }
-func (c *verifConn) LocalAddr() net.Addr                      { return &net.UDPAddr{Port: 547} }
-func (c *verifConn) SetDeadline(t time.Time) error            { return nil }
-func (c *verifConn) SetReadDeadline(t time.Time) error        { return nil }
-func (c *verifConn) SetWriteDeadline(t time.Time) error       { return nil }
+func (c *verifConn) Close() error                              { c.closes++; return nil }
+func (c *verifConn) LocalAddr() net.Addr                       { return &net.UDPAddr{Port: 547} }
+func (c *verifConn) SetDeadline(t time.Time) error             { return nil }
+func (c *verifConn) SetReadDeadline(t time.Time) error         { return nil }
+func (c *verifConn) SetWriteDeadline(t time.Time) error        { return nil }
 
 type verifCallRec struct {
 	conn net.PacketConn
@@ -137,8 +138,11 @@ func VerifC14Serve(k1, k2, k3 int) {
 		}
 	}
 	var calls []verifCallRec
+	var mu sync.Mutex
 	s := &Server{conn: conn, logger: EmptyLogger{}, handler: func(c net.PacketConn, peer net.Addr, m dhcpv6.DHCPv6) {
+		mu.Lock() // handlers run concurrently
 		calls = append(calls, verifCallRec{c, peer, m})
+		mu.Unlock()
 	}}
 	err := s.Serve()
 	verifSettle() // let every handler goroutine run; messages are inspected only now, after every read
@@ -202,9 +206,12 @@ func VerifC14Many(n int) {
 		want = append(want, verifExpect{wire: d, peer: peer})
 	}
 	var calls []verifCallRec
+	var mu sync.Mutex
 	s := &Server{conn: conn, logger: EmptyLogger{}, handler: func(c net.PacketConn, peer net.Addr, m dhcpv6.DHCPv6) {
 		<-conn.release
+		mu.Lock() // handlers run concurrently
 		calls = append(calls, verifCallRec{c, peer, m})
+		mu.Unlock()
 	}}
 	err := s.Serve()
 	verifSettle()
